@@ -212,6 +212,7 @@ func cmdEvents(args []string) int {
 	chunks := fs.Int("chunks", 1, "number of output files")
 	logf := fs.String("log", "", "file receiving TLC's own output lines")
 	names := fs.String("names", "", "comma separated option / profile names (opt, idem, class)")
+	fs.BoolVar(&setterEvents, "setter-events", false, "opt: also record the neutral options on the setter path")
 	fs.Parse(args)
 	var nameList []string
 	if *names != "" {
@@ -314,16 +315,21 @@ func init() {
 
 // ---- C16: one option configuration vs the default parser on one input ----
 type OptEvent struct {
-	K   string        `json:"k"`
-	Opt string        `json:"opt"`
-	In  proj.Text     `json:"in"`
-	Bs  []proj.Text   `json:"bs"`
-	D   Res           `json:"d"`   // package-level default parser
-	O   Res           `json:"o"`   // parser / profile built with the option(s)
-	Alt Res           `json:"alt"` // default parser on "http://" + input (default-scheme)
-	DP  [][]proj.Text `json:"dp"`  // decoded parameter list of d
-	OP  [][]proj.Text `json:"op"`  // decoded parameter list of o
+	K      string        `json:"k"`
+	Opt    string        `json:"opt"`
+	Setter string        `json:"setter"` // "" = parse event; otherwise In is the VALUE given to this setter on a fixed start URL (Bs[0]) under both parsers
+	In     proj.Text     `json:"in"`
+	Bs     []proj.Text   `json:"bs"`
+	D      Res           `json:"d"`   // package-level default parser
+	O      Res           `json:"o"`   // parser / profile built with the option(s)
+	Alt    Res           `json:"alt"` // default parser on "http://" + input (default-scheme)
+	DP     [][]proj.Text `json:"dp"`  // decoded parameter list of d
+	OP     [][]proj.Text `json:"op"`  // decoded parameter list of o
 }
+
+var neutralForSetters = map[string]bool{"single_pct": true, "collapse": true, "accept_invalid+single_pct+collapse+skip_drive": true}
+var setterEvents = false
+var setterRot = 0
 
 var optNames = []string{"newparser", "canon_none", "remove_userinfo", "remove_port", "remove_fragment", "canon:remove_userinfo+remove_port+remove_fragment",
 	"sort_keys", "sort_param", "default_scheme", "accept_invalid", "single_pct", "collapse", "skip_drive", "special_gopher", "lax_host",
@@ -389,6 +395,43 @@ func optEvents(ln *Line, names []string) []interface{} {
 			}()
 		}
 		out = append(out, e)
+		if setterEvents && neutralForSetters[name] && len(bs) == 0 {
+			// the same option on the SETTER path: the input is used as the value of each setter on a fixed, trigger-free start URL
+			setterRot++
+			for _, start := range []string{[]string{"http://u:p@h:8/a/b?q#f", "x://u@h/a", "file:///C:/d"}[setterRot%3]} {
+				for _, st := range []string{"username", "password", "pathname", "search", "hash", "host"} {
+					start, st := start, st
+					es := OptEvent{K: "opt", Opt: name, Setter: st, In: ln.In, Bs: []proj.Text{proj.FromGo(start)}, Alt: Res{VE: VEList{}}, DP: [][]proj.Text{}, OP: [][]proj.Text{}}
+					apply := func(p url.Parser) Res {
+						r, _ := callU(func() (*url.Url, error) {
+							u, err := p.Parse(start)
+							if err != nil || u == nil {
+								return u, err
+							}
+							switch st {
+							case "username":
+								u.SetUsername(s)
+							case "password":
+								u.SetPassword(s)
+							case "pathname":
+								u.SetPathname(s)
+							case "search":
+								u.SetSearch(s)
+							case "hash":
+								u.SetHash(s)
+							case "host":
+								u.SetHost(s)
+							}
+							return u, nil
+						})
+						return r
+					}
+					es.D = apply(defaultP)
+					es.O = apply(parserFor(name))
+					out = append(out, es)
+				}
+			}
+		}
 		if (name == "newparser" || name == "canon_none") && len(bs) == 0 {
 			// ParseRef with an empty base string must behave like Parse, as in the default parser
 			e2 := OptEvent{K: "opt", Opt: name, In: ln.In, Bs: bs, Alt: Res{VE: VEList{}}, DP: [][]proj.Text{}, OP: [][]proj.Text{}}
